@@ -485,3 +485,52 @@ def s06(tier, seed):
             run.witness("zero_turnout_upper_replaced")
     run.sample({"scenario": scen[0]})
     run.finish(require_witnesses=["naive_bounds", "partial_bounds", "zero_turnout_upper_replaced"])
+
+
+# ---------------------------------------------------------------------------------------------------------------
+# S07: one historical evaluation (HistoricalModelClient)
+
+
+def s07(tier, seed):
+    """HistoricalRun.tla: recorded historical evaluations of the real client (local and non-local interpreters) validated by Trace_HistoricalRun."""
+    from harness import controla, histflow, tracecheck
+
+    run = report.Run("S07", tier, seed)
+    run.assumptions += ["supplementary model, not a listed property: the code AS FOUND, with its deviations named (only requested estimands are blanked, "
+                        "inner runs save by default, save_output omitted -> TypeError outside local, the evaluation is never serialisable)",
+                        "nonparametric estimator, 40 units, one level; 0-2 historical elections"]
+    common.mc(run, "MC_HistoricalRun", "MC_HistoricalRun.cfg", timeout=900, workers=8)
+    for name, inv in (("typeerror", "NeverTypeError"), ("evaluation", "EvaluationWrittenWhenAsked"), ("omitted", "OmittedOptionWritesNothing"), ("turnout", "AllHiddenResultsBlank")):
+        common.mc(run, "MC_HistoricalRun", f"MC_HistoricalRun_demo_{name}.cfg", expect_violation=inv, workers=4, name=f"demo: {inv} is violated by the code as found")
+    rnd = random.Random(seed)
+    n = 48 if tier == "quick" else 400
+    jobs = [histflow.make_job(i, rnd) for i in range(n)]
+    batches = []
+    for envname in ("local", "remote"):
+        for v, part in enumerate([jobs[i::4] for i in range(4)]):
+            batches.append((envname, controla.env_of(envname, v), part))
+    outs = common.pool().map(controla.spawn_job, [(env, part) for _, env, part in batches], chunksize=1)
+    traces = []
+    for (envname, _, part), (status, res) in zip(batches, outs):
+        if status != "ok":
+            raise tlc.MachineryError(f"historical child failed: {res}")
+        for r in res:
+            if str(r["outcome"]).startswith(("raised", "harness_error")):
+                run.violation("run_raised", {"clause": "run_raised", "outcome": r["outcome"]}, r)
+                continue
+            units = {h: {u: {"pev": int(x["pev"]), "res": {c: int(v) for c, v in x["res"].items()}, "fed": {c: int(v) for c, v in x["fed"].items()}} for u, x in us.items()}
+                     for h, us in r["units"].items()}
+            traces.append({"job": r["job"], "env": envname, "outcome": r["outcome"], "puts": r["puts"], "result": r["result"], "units": units})
+            run.witness("outcome_" + r["outcome"])
+            if envname == "remote" and r["puts"]:
+                run.witness("remote_puts_seen")
+            if any(x["pev"] < 100 and x["fed"].get("turnout", 0) > 0 for us in units.values() for x in us.values()):
+                run.witness("turnout_of_hidden_unit_visible")
+
+    def on_reject(tr, clause, inv):
+        run.violation(clause, {"clause": clause, "env": tr["env"]}, {"trace": {k: v for k, v in tr.items() if k != "units"}})
+
+    n_ok = tracecheck.validate("Trace_HistoricalRun", "Trace_HistoricalRun.cfg", traces, on_reject, run=run, chunk=200)
+    run.cov["traces_validated_against_impl"] += n_ok
+    run.sample({"recorded": {k: v for k, v in traces[0].items() if k != "units"}})
+    run.finish(require_witnesses=["outcome_ok", "outcome_not_enough", "outcome_client_error", "outcome_type_error", "remote_puts_seen", "turnout_of_hidden_unit_visible"])
